@@ -2174,12 +2174,12 @@ def r08_10(ctx):
         ctx.ok(('UdpNhcRepr::emit', 'checksum field always written'), sample=dict(fn='UdpNhcRepr::emit', writes='set_checksum on every path'))
 
 
-@rule('R06.17', ['C06', 'C10'], floor=2, clause='the link-layer address options of NDISC are padded explicitly: after the address, the rest of the 8-octet-aligned option is written (zeroed) by emit')
+@rule('R06.17', ['C06', 'C10'], floor=3, clause='the NDISC options whose length is rounded up to a multiple of 8 (link-layer address options, redirected header) are padded explicitly: behind the address / the quoted packet, the rest of the option is written (zeroed) by emit')
 def r06_17(ctx):
     F = ctx.F
     R = 'wire::ndiscoption::Repr'
     em = ctx.method(R, 'emit')
-    for v in ('SourceLinkLayerAddr', 'TargetLinkLayerAddr'):
+    for v in ('SourceLinkLayerAddr', 'TargetLinkLayerAddr', 'RedirectedHeader'):
         cut = set(guard_edges(F, em, lambda f: (f[0] == 'is' and leafs(f[1]) == {'A:1'} and f[3] == R and f[2] != v) or
                               (f[0] == 'isnot' and leafs(f[1]) == {'A:1'} and f[3] == R and v in f[2])))
         blocks = set(em.reachable(cut_edges=cut))
@@ -2195,8 +2195,8 @@ def r06_17(ctx):
         if pads:
             ctx.ok((v, 'padding zeroed'), sample=dict(option=v, pads='fill(0) behind the address'))
         else:
-            ctx.bad(f"ndiscoption::Repr::{v}|padding-unwritten", f"ndiscoption::Repr::emit writes the {v} option's address but not the padding behind it: with an 8-octet IEEE 802.15.4 address "
-                    "the option is 16 octets long and its last 6 octets keep the previous buffer content (they are covered by the ICMPv6 checksum and go out on the wire)", body=em)
+            ctx.bad(f"ndiscoption::Repr::{v}|padding-unwritten", f"ndiscoption::Repr::emit writes the {v} option's content but not the padding behind it (an 8-octet IEEE 802.15.4 address makes "
+                    "the option 16 octets long, a quoted packet is rarely a multiple of 8): the last octets keep the previous buffer content (they are covered by the ICMPv6 checksum and go out on the wire)", body=em)
 
 
 @rule('R05.12', ['C05', 'C04', 'C01'], floor=1, clause='the TCP option loop of the segment parser ends only at the end of the option area, at an end-of-list option or on a malformed option - and does end at an end-of-list option: an option of unknown kind is skipped, so MSS / window scale / SACK-permitted / timestamps placed behind it are still honoured, while padding behind the end-of-list is not read as options')
